@@ -59,17 +59,33 @@ def payload_conds(p):
     return out
 
 
+ADDERS_STD = ("insert", "push", "extend", "append", "push_back", "push_str", "extend_from_slice", "insert_full")
+
+
 def store_evidence(p, field):
     for e in p.events:
         if e["k"] != "call" or not e["callee"]:
             continue
-        if any(mentions(a, PAYLOAD) for a in e["args"]) and any(mentions(a, 1) for a in e["args"]):
-            return True
+        if e["callee"].rsplit("::", 1)[-1] in ADDERS_STD + ("entry",) and any(mentions(a, PAYLOAD) for a in e["args"][1:]) and e["args"] and mentions(e["args"][0], 1):
+            return True       # (`map.entry(payload)` makes the payload a key of the map)
     for (nm, fld, via) in c04.mutation_events(p):
-        if fld == field and nm not in REMOVALS:
+        if fld == field and nm in ADDERS_STD:
             # the payload may have been moved into a local container first (vec![label])
             return True
     return False
+
+
+def derived_discr(p):
+    """conditions that test a value *computed from* the payload (`value.filter(..)`, `bucket.iter().any(|l| l == label)`)"""
+    out = []
+    for (bb, term, vals, neg, dty) in p.conds:
+        inner = term[1] if term[0] == "discr" else term
+        inner = strip_refs(inner)
+        if inner[0] == "param":
+            continue
+        if mentions(term, PAYLOAD) and inner[0] == "call" and not inner[1].startswith("mila::") and "Try>::branch" not in inner[1]:
+            out.append((term, vals, neg))
+    return out
 
 
 def contract(facts, rep, R, names):
@@ -115,9 +131,9 @@ def contract(facts, rep, R, names):
             seen_store = seen_store or stored
             if err is True or stored:
                 continue
-            if st is None:
+            if st is None and not derived_discr(p):
                 continue
-            pc = payload_conds(p)
+            pc = payload_conds(p) or derived_discr(p)
             how = ("taken when %s is %s" % (fmt(pc[0][0])[:70], "false" if (0 in pc[0][1]) != pc[0][2] else "true")) if pc else "taken for every payload"
             rep.violation(R, b.name, "payload-dropped",
                           "%s has a path that is given a payload, ends without an error and never stores it (%s; ends in %s): the layers above count the cell as written" % (
